@@ -27,7 +27,6 @@ LABEL_READERS = ("DDM", "EDDM", "STEPD", "LinearFourRates", "ADWINAccuracy")
 X_STREAM = ("ADWIN", "CUSUM", "PageHinkley", "KdqTreeStreaming", "PCACD")
 BATCH = ("HDDDM", "CDBD", "KdqTreeBatch", "NNDVI")
 
-NODE_CAP = {"quick": 12000, "thorough": 150000}
 CFGS_PER_SYSTEM = {"quick": 3, "thorough": 8}
 K = {"quick": 1, "thorough": 2}
 
@@ -165,13 +164,13 @@ def derive(mod, tasks, tier):
 
     if os.environ.get("VERIF_FAULTS", pairs.DEFAULT_ON) == "0" or getattr(mod, "NO_FAULTS", False):
         return []
-    if getattr(mod, "PROPERTY", "") in ("C14",):  # C14 explores refused calls natively, with its own twin oracle
+    if getattr(mod, "PROPERTY", "") in ("C14", "C12"):  # C14 explores refused calls natively (ensembles included: a fault aimed at a member object of a C12 ensemble would bypass the ensemble)
         return []
     out = []
-    cap = NODE_CAP[tier]
     k = K[tier]
     for name, chosen in pairs.choose(mod, tasks, CFGS_PER_SYSTEM[tier]):
         base = mod.SYSTEMS[name]
+        cap = pairs.node_cap(tier, name)
         for t in chosen:
             try:
                 s0 = base.init(t["cfg"])
@@ -184,7 +183,7 @@ def derive(mod, tasks, tier):
             nodes = min(cap, max(s, 2) ** min(t["depth"], 40))
             # histories of d accepted calls with at most k refused calls (2 kinds) anywhere: ~ s^d * (1 + 2(d+1))^k
             d = max(2, t["depth"])
-            while d > 2 and (max(s, 2) ** d) * (1 + 2 * (d + 1)) ** k > nodes * 4:
+            while d > 2 and (max(s, 2) ** d) * (1 + 2 * (d + 1)) ** k > nodes * 2:
                 d -= 1
             cid = pairs._cid(t["cfg"])
             cfg = {"id": "faulty:%s" % cid, "base": t["cfg"], "k": k}
